@@ -92,3 +92,5 @@ SPEC = dict(
 SPEC["streams"] = [dict(imports="From Ship Require Import Base Conn ConnData ConnMon ConnCheck.", case_type="conn_case", check_fn="check_C10conn",
                         drivers=[dict(bin="shipdrv", args=["-prop", "conn"], n_quick=1000, n_thorough=20000, timeout=2400)],
                         codes={113: "handshake_progressed_after_user_cancel"})]
+
+SPEC["manifest"]["text"] += " The hub model also observes IsAutoAcceptEnabled right after SetAutoAccept (code 20) and a delayed dial that fires while Shutdown is still inside the provider's Shutdown."
